@@ -59,6 +59,7 @@ package goatlang
 //@   requires valid(v) && valid(b)
 //@   panics_iff (v.t | b.t) == TypeString && (!is(v.value, stringT) || !is(b.value, stringT))
 //@   ensures#novalue (v.t | b.t) != TypeString ==> isnil(result.value)
+//@   ensures#concat @C04 @C13 v.t == TypeString && b.t == TypeString && is(v.value, stringT) && is(b.value, stringT) ==> result == String(string(as(v.value, stringT) + as(b.value, stringT)))
 //@   ensures#i8 v.t == TypeInt8 && b.t == TypeInt8 ==> result.t == TypeInt8 && valid(result) && int8(result.num) == int8(v.num) + int8(b.num)
 //@   ensures#i8c v.t == TypeInt8 && b.t == untypedInt && fits8(b) ==> result.t == TypeInt8 && valid(result) && int8(result.num) == int8(v.num) + int8(int64(b.num))
 //@   ensures#ci8 v.t == untypedInt && b.t == TypeInt8 && fits8(v) ==> result.t == TypeInt8 && valid(result) && int8(result.num) == int8(int64(v.num)) + int8(b.num)
@@ -484,8 +485,6 @@ package goatlang
 //@   nopanic
 //@ func (Value).convert case default
 //@   nopanic
-//@ func (Value).convert case TypeString
-//@   trusted
 //@ func (Value).convert case TypeSlice
 //@   trusted
 
@@ -2103,3 +2102,39 @@ package goatlang
 //@   axioms TOKARR
 //@   requires wfC(c) && tok != nil && len(c.Returns) >= 1 && tokArr(arr(tok.Tokens)) && (forall j int :: 0 <= j && j < len(tok.Tokens) ==> tok.Tokens[j] != nil)
 //@   ensures#wf wfC(c) && keepsC(c)
+
+// ---------------------------------------------------------------------------------------------
+// C13: strings are Go strings: every script operation is the Go primitive on the same operands
+// ---------------------------------------------------------------------------------------------
+//@ func (stringT).Len
+//@   property C13
+//@   nopanic
+//@   ensures result == len(s)
+//@ func (stringT).Get
+//@   property C13
+//@   reveal Byte
+//@   panics_iff a.Int() < 0 || a.Int() >= len(s)
+//@   ensures#byte result1 && result0.t == TypeUint8 && uint8(result0.num) == s[a.Int()] && isnil(result0.value)
+//@ func (stringT).Slice
+//@   property C13
+//@   panics_iff i < 0 || j < i || j > len(s)
+//@   ensures result == String(string(s[i:j]))
+//@ func (stringT).Set
+//@   property C13
+//@   panics_iff true
+//@ func (stringT).Append
+//@   property C13
+//@   panics_iff true
+//@ func (stringT).Delete
+//@   property C13
+//@   panics_iff true
+//@ func (*token).Char
+//@   property C13
+//@   requires t != nil && len(t.Text) >= 2
+//@   ensures result == fst(strconv.UnquoteChar(t.Text[1:len(t.Text)-1], '\''))
+//@ func (Value).convert case TypeString
+//@   property C13
+//@   ensures#same v.t == TypeString ==> result == v
+//@   ensures#rune v.t != TypeString && (v.t & isNumericMask) != 0 ==> result == String(string(rune(v.num)))
+//@ func (Value).convert case TypeString loop 0
+//@   invariant len(b) == len(data)
